@@ -1,8 +1,10 @@
 package main
 
 // C19: the inventory of generated wrappers of modules/strings, regenerated from
-// strings.go (which Go function each exported function calls, and in which order it passes
-// its parameters) and strings_gen.go (arity check, argument converters, result constructor,
+// strings.go (which Go function each exported function calls, in which order it passes
+// its parameters, and which tests it makes on them before the call) and strings_gen.go
+// (arity check, argument converters, error result handed back as an error value, result
+// constructor,
 // registered name).  Anything that does not have the expected shape makes the extractor
 // fail loudly, so the tie is reported broken instead of being silently wrong.
 
@@ -11,6 +13,7 @@ import (
 	"go/ast"
 	"go/parser"
 	"go/token"
+	"go/types"
 	"path/filepath"
 	"strconv"
 	"strings"
@@ -34,6 +37,27 @@ type c19Inner struct {
 	goFunc string
 	pass   []int
 	nParam int
+	pre    []string // the tests made before the call (Lean `Check` terms), in source order
+	retErr bool     // the function returns (T, error)
+}
+
+// c19_check: the Lean `Check` term of a test `if cond { return <zero>, <error> }` an exported
+// function makes on its parameters before it calls the Go function.  Only the two shapes the
+// model knows are accepted; anything else makes the extractor fail.
+func c19_check(fn string, cond ast.Expr, params []string) string {
+	text := types.ExprString(cond)
+	for i, a := range params {
+		if text == a+" < 0" {
+			return fmt.Sprintf(".neg %d", i)
+		}
+		for j, b := range params {
+			if text == fmt.Sprintf("len(%s) > 0 && %s > math.MaxInt / len(%s)", a, b, a) {
+				return fmt.Sprintf(".lenMulOverflows %d %d", i, j)
+			}
+		}
+	}
+	c19Fail("%s: test %q before the call has no counterpart in the model", fn, text)
+	return ""
 }
 
 func init() {
@@ -59,18 +83,46 @@ func init() {
 					params = append(params, n.Name)
 				}
 			}
-			if len(fd.Body.List) != 1 {
+			// the body is `return strings.X(params…)`, or — for a function that returns
+			// (T, error) — tests `if cond { return <zero>, <error> }` followed by
+			// `return strings.X(params…), nil`
+			nRes := 0
+			if fd.Type.Results != nil {
+				for _, fl := range fd.Type.Results.List {
+					nRes += max(1, len(fl.Names))
+				}
+			}
+			retErr := nRes == 2 && c19_selName(fd.Type.Results.List[len(fd.Type.Results.List)-1].Type) == "error"
+			if nRes != 1 && !retErr {
+				c19Fail("%s: returns neither T nor (T, error)", fd.Name.Name)
+			}
+			if len(fd.Body.List) == 0 || (!retErr && len(fd.Body.List) != 1) {
 				c19Fail("%s: body is not a single return", fd.Name.Name)
 			}
-			ret, ok := fd.Body.List[0].(*ast.ReturnStmt)
-			if !ok || len(ret.Results) != 1 {
-				c19Fail("%s: body is not a single return", fd.Name.Name)
+			var pre []string
+			for _, st := range fd.Body.List[:len(fd.Body.List)-1] {
+				is, ok := st.(*ast.IfStmt)
+				if !ok || is.Init != nil || is.Else != nil || len(is.Body.List) != 1 {
+					c19Fail("%s: a statement before the final return is not `if cond { return zero, err }`", fd.Name.Name)
+				}
+				r, ok := is.Body.List[0].(*ast.ReturnStmt)
+				if !ok || len(r.Results) != 2 || c19_selName(r.Results[1]) == "nil" {
+					c19Fail("%s: a test before the call does not return an error", fd.Name.Name)
+				}
+				if lit, ok := r.Results[0].(*ast.BasicLit); !ok || lit.Value != `""` {
+					c19Fail("%s: a test before the call returns a value beside its error", fd.Name.Name)
+				}
+				pre = append(pre, c19_check(fd.Name.Name, is.Cond, params))
+			}
+			ret, ok := fd.Body.List[len(fd.Body.List)-1].(*ast.ReturnStmt)
+			if !ok || len(ret.Results) != nRes || (retErr && c19_selName(ret.Results[1]) != "nil") {
+				c19Fail("%s: body does not end in `return strings.X(…)` / `return strings.X(…), nil`", fd.Name.Name)
 			}
 			call, ok := ret.Results[0].(*ast.CallExpr)
 			if !ok || !strings.HasPrefix(c19_selName(call.Fun), "strings.") {
 				c19Fail("%s: does not return a call of a strings function", fd.Name.Name)
 			}
-			in := c19Inner{goFunc: c19_selName(call.Fun), nParam: len(params)}
+			in := c19Inner{goFunc: c19_selName(call.Fun), nParam: len(params), pre: pre, retErr: retErr}
 			for _, a := range call.Args {
 				id, ok := a.(*ast.Ident)
 				idx := -1
@@ -94,6 +146,8 @@ func init() {
 			convs []string
 			inner string
 			res   string
+			// `result, resultErr := inner(…)` followed by `if resultErr != nil { return object.NewError(resultErr) }`
+			retErr bool
 		}
 		wrappers := map[string]wrapper{}
 		var order [][2]string // exported name, wrapper func
@@ -152,8 +206,11 @@ func init() {
 					if r, ok := resOf[name]; ok {
 						w.res = r
 					}
-				case *ast.AssignStmt: // result := inner(p0, p1, …)
-					if len(x.Lhs) == 1 && c19_selName(x.Lhs[0]) == "result" {
+				case *ast.AssignStmt: // result := inner(p0, p1, …)   or   result, resultErr := inner(p0, p1, …)
+					if len(x.Lhs) == 2 && c19_selName(x.Lhs[0]) == "result" && c19_selName(x.Lhs[1]) == "resultErr" {
+						w.retErr = true
+					}
+					if len(x.Lhs) >= 1 && len(x.Lhs) <= 2 && c19_selName(x.Lhs[0]) == "result" {
 						if c, ok := x.Rhs[0].(*ast.CallExpr); ok {
 							w.inner = c19_selName(c.Fun)
 							// parameters must be passed in argument order: xParam, yParam… are
@@ -174,7 +231,7 @@ func init() {
 					if id, ok := as.Lhs[0].(*ast.Ident); ok && strings.HasSuffix(id.Name, "Param") {
 						declared = append(declared, id.Name)
 					}
-					if len(as.Lhs) == 1 && c19_selName(as.Lhs[0]) == "result" {
+					if len(as.Lhs) <= 2 && c19_selName(as.Lhs[0]) == "result" {
 						for _, a := range as.Rhs[0].(*ast.CallExpr).Args {
 							passed = append(passed, c19_selName(a))
 						}
@@ -188,6 +245,25 @@ func init() {
 			}
 			if w.arity != len(w.convs) || w.inner == "" || w.res == "" {
 				c19Fail("%s: unexpected wrapper shape (arity %d, %d converters, inner %q, result %q)", fd.Name.Name, w.arity, len(w.convs), w.inner, w.res)
+			}
+			if w.retErr {
+				// the error of the exported function must come back as an error VALUE:
+				// `if resultErr != nil { return object.NewError(resultErr) }` right after the call
+				found := false
+				for i, st := range fd.Body.List {
+					as, ok := st.(*ast.AssignStmt)
+					if !ok || len(as.Lhs) != 2 || c19_selName(as.Lhs[1]) != "resultErr" || i+1 >= len(fd.Body.List) {
+						continue
+					}
+					if is, ok := fd.Body.List[i+1].(*ast.IfStmt); ok && types.ExprString(is.Cond) == "resultErr != nil" && len(is.Body.List) == 1 {
+						if r, ok := is.Body.List[0].(*ast.ReturnStmt); ok && len(r.Results) == 1 && types.ExprString(r.Results[0]) == "object.NewError(resultErr)" {
+							found = true
+						}
+					}
+				}
+				if !found {
+					c19Fail("%s: resultErr is not returned as object.NewError(resultErr) right after the call", fd.Name.Name)
+				}
 			}
 			wrappers[fd.Name.Name] = w
 		}
@@ -207,11 +283,14 @@ func init() {
 			if in.nParam != w.arity {
 				c19Fail("%s: %d parameters but arity %d", w.inner, in.nParam, w.arity)
 			}
+			if in.retErr != w.retErr {
+				c19Fail("%s: the exported function and its generated wrapper disagree about an error result", w.inner)
+			}
 			pass := make([]string, len(in.pass))
 			for i, p := range in.pass {
 				pass[i] = strconv.Itoa(p)
 			}
-			rows = append(rows, fmt.Sprintf("  ⟨%q, %q, [%s], [%s], %s⟩", o[0], in.goFunc, strings.Join(w.convs, ", "), strings.Join(pass, ", "), w.res))
+			rows = append(rows, fmt.Sprintf("  ⟨%q, %q, [%s], [%s], %s, [%s]⟩", o[0], in.goFunc, strings.Join(w.convs, ", "), strings.Join(pass, ", "), w.res, strings.Join(in.pre, ", ")))
 		}
 		s := "import RisorModel.C19.Model\nnamespace Risor.Generated.C19\nopen Risor.C19\n\n"
 		s += "/-- regenerated from modules/strings/strings.go and strings_gen.go -/\n"
